@@ -40,6 +40,10 @@ pub enum CbOp {
     Ttl,
     SetTtl(u32),
     Ip,
+    /// rr_ip with a caller buffer `extra` bytes larger than the address
+    IpRoomy(u8),
+    /// set_raw_name with the record's current owner name, letter case flipped
+    SetRawNameCaseFlip,
     SetIp(#[serde(with = "crate::ops::hexbytes")] Vec<u8>),
     SetRawName(#[serde(with = "crate::ops::hexbytes")] Vec<u8>),
     SetName {
@@ -137,6 +141,11 @@ fn encode_cb(p: &[CbOp]) -> Vec<u8> {
                 v.extend_from_slice(&t.to_be_bytes());
             }
             CbOp::Ip => v.push(0x55),
+            CbOp::IpRoomy(x) => {
+                v.push(0x5B);
+                v.push(*x);
+            }
+            CbOp::SetRawNameCaseFlip => v.push(0x5C),
             CbOp::SetIp(a) => {
                 v.push(0x56);
                 put_blob(&mut v, a);
@@ -297,6 +306,48 @@ fn native_cb(item: &mut ResponseIterator, prog: &[CbOp], l: &mut L) -> bool {
                         l.0.extend_from_slice(&ip.octets());
                     }
                     Err(_) => l.u8(0xfd),
+                }
+            }
+            CbOp::IpRoomy(_) => {
+                if deleted {
+                    continue;
+                }
+                let ty = item.rr_type();
+                if ty != 1 && ty != 28 {
+                    continue;
+                }
+                match item.rr_ip() {
+                    Ok(IpAddr::V4(ip)) => {
+                        l.u8(4);
+                        l.0.extend_from_slice(&ip.octets());
+                    }
+                    Ok(IpAddr::V6(ip)) => {
+                        l.u8(16);
+                        l.0.extend_from_slice(&ip.octets());
+                    }
+                    Err(_) => l.u8(0xfd),
+                }
+                l.u8(0); // nothing beyond the address touched
+            }
+            CbOp::SetRawNameCaseFlip => {
+                if deleted {
+                    continue;
+                }
+                // exactly what the C side can do: name() (lower-cased text) -> raw name ->
+                // upper-case the letters -> set_raw_name
+                let text = item.name();
+                let n = text.iter().position(|&c| c == 0).unwrap_or(text.len());
+                match dgen::raw_name_from_str(&text[..n], None) {
+                    Err(_) => l.u8(0xfc),
+                    Ok(mut raw) => {
+                        for b in raw.iter_mut() {
+                            if b.is_ascii_lowercase() {
+                                *b -= 32;
+                            }
+                        }
+                        let r = item.set_raw_name(&raw);
+                        l.rc(&r);
+                    }
                 }
             }
             CbOp::SetIp(a) => {
@@ -677,7 +728,8 @@ pub fn exec_c(sc: &ScenC, run_tag: u64, verbose: bool) -> Result<OutC, String> {
                             CbOp::Class => "rr_class",
                             CbOp::Ttl => "rr_ttl",
                             CbOp::SetTtl(_) => "set_rr_ttl",
-                            CbOp::Ip => "rr_ip",
+                            CbOp::Ip | CbOp::IpRoomy(_) => "rr_ip",
+                            CbOp::SetRawNameCaseFlip => "set_raw_name",
                             CbOp::SetIp(_) => "set_rr_ip",
                             CbOp::SetRawName(_) => "set_raw_name",
                             CbOp::SetName { .. } => "set_name",
@@ -718,7 +770,13 @@ fn gen_cb(rng: &mut Rng, fault_pm: usize) -> Vec<CbOp> {
             3 => CbOp::Class,
             4 => CbOp::Ttl,
             5 => CbOp::SetTtl(rng.next_u64() as u32),
-            6 => CbOp::Ip,
+            6 => {
+                if rng.bool() {
+                    CbOp::Ip
+                } else {
+                    CbOp::IpRoomy(*rng.pick(&[1u8, 4, 16, 48]))
+                }
+            }
             7 => {
                 let n = if rng.bool() { 4 } else { 16 };
                 CbOp::SetIp(rng.bytes(n))
@@ -761,7 +819,14 @@ fn gen_cb(rng: &mut Rng, fault_pm: usize) -> Vec<CbOp> {
                 };
                 CbOp::SetName { text, zone }
             }
-            11 | 12 => CbOp::Delete,
+            11 => CbOp::Delete,
+            12 => {
+                if rng.bool() {
+                    CbOp::Delete
+                } else {
+                    CbOp::SetRawNameCaseFlip
+                }
+            }
             _ => CbOp::Stop,
         });
     }
